@@ -367,6 +367,7 @@ def markdown_leaf():
         st.tuples(st.integers(1, 6), para).map(lambda t: "#" * t[0] + " " + t[1]),
         st.lists(para, min_size=1, max_size=3).map(lambda ps: "\n".join("- " + x for x in ps)),
         st.lists(para, min_size=1, max_size=3).map(lambda ps: "\n".join("%d. %s" % (i + 1, x) for i, x in enumerate(ps))),
+        st.tuples(st.sampled_from([0, 9, 98, 99, 250, 1986, 99999]), st.lists(para, min_size=1, max_size=3)).map(lambda t: "\n".join("%d. %s" % (t[0] + i, x) for i, x in enumerate(t[1]))),
         st.tuples(para, para).map(lambda t: "- %s\n    - %s\n    - %s" % (t[0], t[1], t[0])),
         para.map(lambda x: "> " + x), st.tuples(para, para).map(lambda t: "> %s\n>\n> - %s" % t),
         st.tuples(st.sampled_from(["", "python", "nosuchlang", "text"]), st.lists(st.sampled_from(["x = 1", "", "\tif a:", "漢字 = '[bold]'"]), max_size=3)).map(lambda t: "```%s\n%s\n```" % (t[0], "\n".join(t[1]))),
